@@ -237,14 +237,14 @@ fn run_next<P: Prog>(a: usize) {
     let k = pc(a);
     kani::assume(k < P::LEN[a]);
     set_pc(a, k + 1);
-    // concrete dispatch: one arm per possible value
+    // concrete dispatch: one arm per possible value of the (possibly symbolic) counter
     if k == 0 {
         P::step(a, 0)
-    } else if k == 1 {
+    } else if P::LEN[a] > 1 && k == 1 {
         P::step(a, 1)
-    } else if k == 2 {
+    } else if P::LEN[a] > 2 && k == 2 {
         P::step(a, 2)
-    } else {
+    } else if P::LEN[a] > 3 {
         P::step(a, 3)
     }
 }
